@@ -94,7 +94,7 @@ def make(variant: str) -> Any:
         from ml_pipeline_engine.dag_builders.annotation.builder import build_dag
         from ml_pipeline_engine.node import build_node
         from ml_pipeline_viewer.visualization.dag import GraphConfigImpl
-        from ..fam_nodes import CLASSES, CustomType, GenericBase
+        from ..fam_nodes import CLASSES, CustomType, GenericBase, Untyped
 
         def h(sym: Any) -> Tuple[str, Dict[str, Any]]:
             prog = F.program(sym)
@@ -109,6 +109,9 @@ def make(variant: str) -> Any:
                     classes[1] = build_node(GenericBase, node_name="f1", class_name="GenericF1", a=M.Input(classes[0]))
                     F.annotate(prog, classes)
                     classes[1].process.__annotations__ = {"a": M.Input(classes[0]), "additional_data": Optional[Any]}
+                elif variant == "untyped":
+                    classes[1] = Untyped
+                    F.annotate(prog, classes)
                 elif variant == "custom_type":
                     classes[1] = CustomType
                     F.annotate(prog, classes)
@@ -174,7 +177,7 @@ FUN = ["ml_pipeline_viewer/visualization/dag.py::GraphConfigImpl._generate_nodes
 A = ["importlib_resources and distutils.dir_util stubbed as empty modules so that the viewer module imports "
      "(only build_static uses them; no property covers it)"]
 PARTS = [{"n3_kind": a, "n4_kind": b} for a in range(4) for b in range(4)]
-for v, tier in (("plain", "quick"), ("generic", "quick"), ("custom_type", "quick")):
+for v, tier in (("plain", "quick"), ("generic", "quick"), ("custom_type", "quick"), ("untyped", "quick")):
     register(Job("C20", "family_" + v, make(v), tier=tier, budget_s=600, parts=PARTS,
                  goals=("n3:sw", "n3:oneof", "n3:rec", "n4:sw", "n4:oneof", "n4:rec"),
                  doc={"template": "C15 family (5 declarations, every mark kind), variant " + v,
